@@ -116,6 +116,7 @@ class Database:
         self.branch_hits = Counter()  # (routine, arm id) -> count : per-routine branch coverage
         self.routine_calls = Counter()
         self.commit_hooks = []
+        self.preempt_hook = None  # (conn, routine) -> None, see exec_stmt 'start'
         self.lock_owner = None
         self.lock_waiters = []
         self.n_commits = 0
@@ -148,6 +149,7 @@ class Database:
         self.branch_hits = Counter()
         self.routine_calls = Counter()
         self.commit_hooks = []
+        self.preempt_hook = None  # (conn, routine) -> None, see exec_stmt 'start'
         self.lock_owner = None
         self.lock_waiters = []
         self.n_commits = 0
@@ -297,6 +299,8 @@ class Connection:
         if db.stmt_log is not None:
             db.stmt_log.append((sql, args))
         self.result_sets = []
+        if self.depth == 0:
+            self.top_statement = (sql, args)
         mark = len(self.undo)
         auto = not self.in_txn
         try:
@@ -372,6 +376,22 @@ class Connection:
         if tag == 'call':
             return self.exec_call(ast, cache, frame, routine)
         if tag == 'start':
+            hook = self.db.preempt_hook
+            if hook is not None and self.depth == 1:
+                # START TRANSACTION inside a top-level CALL implicitly commits whatever transaction the session had open
+                # (releasing its locks) before the new one starts: whatever the procedure read before this point is held
+                # in variables only, and another session's statements can really run here.  The hook (harness) may run
+                # them synchronously on another connection.
+                if self.in_txn:
+                    self.commit()
+                mine = self.db.lock_owner is self
+                if mine:
+                    self.db.lock_owner = None
+                try:
+                    hook(self, routine)
+                finally:
+                    if mine:
+                        self.need_lock()
             self.begin()
             return 0
         if tag == 'commit':
